@@ -134,6 +134,13 @@ def render(path, enc):
             unit_in = False
             steps.append(["g", "G21"])
             amap.append(None)
+        if ai == at and kind == "m206-pair":
+            # home offsets set and taken back at once: whatever they mean to the firmware, together they change nothing
+            a, b = enc.get("m206", (5, -3))
+            steps.append(["g", "M206 X%s Y%s" % (a, b)])
+            amap.append(None)
+            steps.append(["g", "M206 X0 Y0"])
+            amap.append(None)
         if ai == at and kind in ("inch", "relative", "g92", "relative-inch"):
             if kind == "inch":
                 unit_in = True
@@ -216,7 +223,8 @@ class C08(Monitor):
         regs = [r for r in gen_regions(rnd, rnd.choice([1, 1, 2, 3, 4])) if not (r[0] == "rect" and min(r[1], r[3]) < 0.5)]
         if not regs:
             regs = [["rect", 10.0, 10.0, 25.0, 25.0, "r0"]]
-        kind = rnd.choice(["inch"] * 2 + ["inch-then-mm"] * 2 + ["relative"] * 3 + ["translate"] * 3 + ["g92"] + ["relative-inch"])
+        kind = rnd.choice(["inch"] * 2 + ["inch-then-mm"] * 2 + ["relative"] * 3 + ["translate"] * 3 + ["g92"] + ["relative-inch"]
+                          + ["m206-pair"])
         # arcs only where both encodings sample them identically (same units): the property's quantifier has no arcs, the
         # statement does not exclude them
         path = gen_path(rnd, regs, arcs=(kind in ("relative", "translate") and rnd.random() < 0.5),
@@ -225,6 +233,8 @@ class C08(Monitor):
         if kind == "g92":
             enc["shift"] = [rnd.randint(-2000, 2000), rnd.randint(-2000, 2000), rnd.randint(-100, 100)]
             enc["axes"] = rnd.choice(["XYZ", "XY", "X", "Y", "Z", "XZ"])
+        if kind == "m206-pair":
+            enc["m206"] = (rnd.choice([5, -2.5, 10, 0.4]), rnd.choice([0, -3, 7.25]))
         if kind == "translate":
             enc["t"] = (rnd.randint(-300, 4000), rnd.randint(-300, 4000))
             enc["at"] = 0
